@@ -133,14 +133,21 @@ func vpMk_Items(shape int, tag byte) ItemCollection {
 		return ItemCollection{vpMkIRI(tag), vpMkIRI(tag + 1)}
 	case 2:
 		return ItemCollection{vpMkIRI(tag), &Object{ID: vpMkIRI(tag + 1), Type: NoteType}}
-	case 6: // allocated but empty
+	case 16: // allocated but empty
 		return ItemCollection{}
-	case 4: // a repeated member (only offered where the codec promises to keep lists as they are: gob)
+	case 14: // a repeated member (only offered where the codec promises to keep lists as they are: gob)
 		a := vpMkIRI(tag)
 		return ItemCollection{a, vpMkIRI(tag + 1), a}
-	case 5:
+	case 15:
 		a := vpMkIRI(tag)
 		return ItemCollection{&Object{ID: a, Type: NoteType}, vpMkIRI(tag + 1), &Object{ID: a, Type: NoteType}}
+	case 4: // two activities that differ in nothing but their ids (same actor, object, instrument)
+		mk := func(id IRI) Item {
+			return &Activity{ID: id, Type: LikeType, Actor: IRI("https://h.ex/actor"), Object: IRI("https://h.ex/note"), Instrument: IRI("https://h.ex/app")}
+		}
+		return ItemCollection{mk(vpMkIRI(tag)), mk(vpMkIRI(tag + 1))}
+	case 5: // two objects that differ in nothing but their ids
+		return ItemCollection{&Object{ID: vpMkIRI(tag), Type: NoteType, Name: NaturalLanguageValues{{Ref: NilLangRef, Value: Content("same")}}}, &Object{ID: vpMkIRI(tag + 1), Type: NoteType, Name: NaturalLanguageValues{{Ref: NilLangRef, Value: Content("same")}}}}
 	default:
 		return ItemCollection{&Object{ID: vpMkIRI(tag), Type: NoteType}}
 	}
@@ -162,6 +169,7 @@ var vpTimes = []time.Time{
 	time.Date(2020, 2, 29, 23, 59, 59, 0, time.UTC),
 	time.Date(1970, 1, 1, 0, 0, 0, 0, time.UTC),
 	time.Date(1969, 12, 31, 23, 59, 59, 0, time.UTC),
+	time.Date(2021, 6, 15, 23, 30, 0, 0, time.FixedZone("X", 3*3600+1800)), // an instant held in another zone
 }
 
 func vpMk_Time(shape int, tag byte) time.Time { return vpTimes[shape%len(vpTimes)] }
@@ -292,10 +300,12 @@ func vpShapes(kind string) int {
 	case "Item":
 		return 11
 	case "Items":
-		return 4
+		return 6
 	case "Float":
 		return len(vpFloats)
-	case "Time", "Duration":
+	case "Time":
+		return len(vpTimes)
+	case "Duration":
 		return 3
 	case "Source", "PublicKey":
 		return 4
